@@ -445,5 +445,82 @@ theorem groupBy_same_iff {fs : List α} (hnc : NoColl isTyped sim base fs) (hpk 
     subst this
     exact ⟨e1, he1, hf1, hg2⟩
 
+/-! ### unconditional part: typed features with equal similarity keys always share a group -/
+
+theorem nodupKeys_addTo {coll : List (K × List α)} (k : K) (x : α) (hn : (keysC coll).Nodup) :
+    (keysC (addTo coll k x)).Nodup := by
+  by_cases hk : k ∈ keysC coll
+  · rw [keysC_addTo_of_mem x hk]; exact hn
+  · rw [addTo_of_not_mem x hk]
+    simp only [keysC, List.map_append, List.map_cons, List.map_nil]
+    rw [List.nodup_append]
+    refine ⟨hn, by simp, ?_⟩
+    intro a ha b hb e
+    simp at hb; subst hb; subst e; exact hk ha
+
+/-- typed members sit under their own similarity key -/
+def TK (coll : List (K × List α)) : Prop :=
+  (keysC coll).Nodup ∧ ∀ e ∈ coll, ∀ x ∈ e.2, isTyped x = true → sim x = e.1
+
+theorem TK_addTo {coll : List (K × List α)} {k : K} {x : α} (h : TK isTyped sim coll)
+    (hx : isTyped x = true → sim x = k) : TK isTyped sim (addTo coll k x) := by
+  obtain ⟨hn, hd⟩ := h
+  refine ⟨nodupKeys_addTo k x hn, ?_⟩
+  by_cases hk : k ∈ keysC coll
+  · obtain ⟨⟨k', g⟩, hg, hk'⟩ := List.mem_map.mp hk
+    simp only at hk'; subst hk'
+    intro e he y hy ty
+    rcases (mem_addTo_of_mem x hn hg e).mp he with ⟨h1, _⟩ | h1
+    · exact hd e h1 y hy ty
+    · subst h1
+      rcases List.mem_append.mp hy with h2 | h2
+      · exact hd _ hg y h2 ty
+      · simp at h2; subst h2; exact hx ty
+  · rw [addTo_of_not_mem x hk]
+    intro e he y hy ty
+    rcases List.mem_append.mp he with h1 | h1
+    · exact hd e h1 y hy ty
+    · simp at h1; subst h1; simp at hy; subst hy; exact hx ty
+
+theorem TK_groupBy (fs : List α) : TK isTyped sim (groupBy isTyped sim base pick fs) := by
+  unfold groupBy
+  have h1 : ∀ (l : List α) (coll : List (K × List α)), TK isTyped sim coll → TK isTyped sim (pass1 sim l coll) := by
+    intro l
+    induction l with
+    | nil => intro coll h; exact h
+    | cons f t ih => intro coll h; exact ih _ (TK_addTo isTyped sim h (fun _ => rfl))
+  have h2 : ∀ (l : List α) (coll : List (K × List α)), (∀ f ∈ l, isTyped f = false) → TK isTyped sim coll →
+      TK isTyped sim (pass2 base pick l coll) := by
+    intro l
+    induction l with
+    | nil => intro coll _ h; exact h
+    | cons f t ih =>
+      intro coll hl h
+      have hf := hl f (by simp)
+      refine ih _ (fun g hg => hl g (by simp [hg])) ?_
+      unfold place
+      split <;> exact TK_addTo isTyped sim h (fun ty => by rw [hf] at ty; cases ty)
+  refine h2 _ _ (fun f hf => by simp only [List.mem_filter, Bool.not_eq_true'] at hf; exact hf.2) (h1 _ _ ⟨by simp [keysC], by simp⟩)
+
+/-- **no hypothesis on the hash**: two features with a declared type and equal `has_similarity_properties()` are always
+in one group -/
+theorem groupBy_typed_same_key (fs : List α) (f g : α) (hf : f ∈ fs) (hg : g ∈ fs)
+    (tf : isTyped f = true) (tg : isTyped g = true) (hk : sim f = sim g) :
+    SameGroup (groupBy isTyped sim base pick fs) f g := by
+  obtain ⟨hn, hd⟩ := TK_groupBy isTyped sim base pick fs
+  have hperm := groupBy_members_perm isTyped sim base pick fs
+  obtain ⟨e1, he1, hf1⟩ := mem_members.mp (hperm.mem_iff.mpr hf)
+  obtain ⟨e2, he2, hg2⟩ := mem_members.mp (hperm.mem_iff.mpr hg)
+  have k1 := hd e1 he1 f hf1 tf
+  have k2 := hd e2 he2 g hg2 tg
+  obtain ⟨a1, g1⟩ := e1
+  obtain ⟨a2, g2⟩ := e2
+  simp only at k1 k2 hf1 hg2
+  have : a1 = a2 := by rw [← k1, ← k2, hk]
+  subst this
+  have := entry_unique hn he1 he2
+  subst this
+  exact ⟨_, he1, hf1, hg2⟩
+
 end passes
 end OptGroup
